@@ -429,6 +429,34 @@ def parseToken {C : Type} (verify : String → Parsed C) (h : Hist) (secret prev
     else (h.increment fs.1 clock, verify fs.1)
   else (h, verify secret)
 
+/-! ### `ParseToken`'s retry structure -/
+
+/-- the two attempts of the rotation path: the SAME full verification (`verify` = `doParseToken`: signature and claims),
+first with one secret and — only when that fails — with the other -/
+def attempts {C : Type} (verify : String → Parsed C) (first second : String) : Parsed C :=
+  if (verify first).isErr then verify second else verify first
+
+/-- the calls of the attempts, typed: (kind, the secret the call is given); `err s` = `doParseToken(r, s)` failed -/
+def attemptCalls (first second : String) (err : String → Bool) : List (String × String) :=
+  ("parse", first) ::
+    (if err first then
+       ("parse", second) :: (if err second then [("return-err", "")] else [("incr", second), ("return-token", "")])
+     else [("incr", first), ("return-token", "")])
+
+/-- `TokenParser.ParseToken` as a typed call list: with a previous secret the two counters are loaded, the secret whose
+counter leads is tried first, the other one second — by a call of the same `doParseToken` — and the counter of the secret
+that verified is incremented; without a previous secret there is one call and no counter -/
+def parseTokenCalls (secret prev : String) (hasPrev currentLeads : Bool) (err : String → Bool) : List (String × String) :=
+  if hasPrev then
+    ("load", secret) :: ("load", prev) ::
+      attemptCalls (if currentLeads then secret else prev) (if currentLeads then prev else secret) err
+  else ("parse", secret) :: (if err secret then [("return-err", "")] else [("return-token", "")])
+
+/-- A WRONG variant, kept as a witness of what the property demands (the shape of seeded change C18-8): the second attempt
+re-checks only the signature (`sigOnly`) of the already decoded token and marks it valid, skipping the claims -/
+def attemptsSignatureOnlyFallback {C : Type} (verify sigOnly : String → Parsed C) (first second : String) : Parsed C :=
+  if (verify first).isErr then sigOnly second else verify first
+
 /-- the registered claim names `Authorize` does not forward -/
 def standardClaims : List String := ["aud", "exp", "jti", "iat", "iss", "nbf", "sub"]
 
